@@ -27,11 +27,11 @@ CHECKS = {
         '(correspondence), so a span change shows as a disagreement or a failing verdict with the input as replay. Proved: soundness of the LR engine with '
         'value invariants for arbitrary token sources (run_sound), the vehicle for the action-level span invariants.',
    note=TB + ' tokSpans discharges the token-source hypothesis for the real tokenizer (a walk of the whole tokenizer with a two-level cursor invariant; D31/D32 are documented exactly as the failing formulations). RootEnds (the root of a nested run does not end in two newlines unless a closing parenthesis follows) could not be derived; C03_total_checked replaces it by the decidable per-input condition rootEndsChecked (an instrumented parse, proved equal to parse, that checks every nested root; it cannot fire without two adjacent newlines in the text and held on 8.3 million generated runs). The correspondence is what the per-input evaluation carries. Exclusions are the listed known findings (D11, D19).'),
- 'C04': dict(level='proof', technique='Lean 4 proof (C04_partial above the explicit token-text hypothesis TokText: provenance of every node from delivered tokens, text of operator/pipe/reserved-word nodes, redirect and word structure) + specification predicate evaluated on implementation outcomes; model correspondence',
-   text='C04_partial / C04_prov / C04_spine_* / C04_redirect / C04_word_span (Props/C04*.lean, 5400 lines): under TokText (the text under a delivered token\'s span, continuations removed, is its spelling up to four explicit residues = defects D31, D32, D31+D32 and NEWLINE over here-document bodies; validated by #eval at every build on 1173 corpus and 3730 grid strings with all suffixes in both modes, 0 failures; not proved from the tokenizer) every reserved-word, operator, pipe, redirect, word and assignment node at any depth is built from delivered tokens of the parser run that built it; operator, pipe and reserved-word nodes outside words carry exactly their text up to the recorded residues; a redirect consists of its first, operator and target tokens (numeric fd = a NUMBER spanning digits that denote it); a word node spans one token and its parts satisfy C07.PartsOK in that token\'s value (value_slice, dollar_text). Per input: Spec.textOK (Lean): per kind, the source under a node\'s span is the node\'s spelling (operators/reserved words/pipes modulo line continuations, '
+ 'C04': dict(level='proof', technique='Lean 4 proof (tokText: the token-text relation PROVED for the real tokenizer; C04_partial_total: provenance of every node from delivered tokens, text of operator/pipe/reserved-word nodes, redirect and word structure; C04_total_conditional with RootEnds as the only hypothesis) + specification predicate evaluated on implementation outcomes; model correspondence',
+   text='tokText / C04_partial_total / C04_prov_total / C04_spine_*_total / C04_redirect / C04_word_span (Props/C04*.lean, Props/C04Total.lean, 9200 lines): the token-text relation is proved for the whole tokenizer (the value of a delivered token followed by a residue is the text under its span with some backslash-newline pairs deleted; the residues are exactly the defects D31, D32, D31+D32 and NEWLINE over here-document bodies; the first formulation, only validated by #eval, was found false on rare inputs by the proof attempt and corrected); with it, unconditionally: every reserved-word, operator, pipe, redirect, word and assignment node at any depth is built from delivered tokens of the parser run that built it; operator, pipe and reserved-word nodes outside words carry exactly their text up to the recorded residues; a redirect consists of its first, operator and target tokens (numeric fd = a NUMBER spanning digits that denote it); a word node spans one token and its parts satisfy C07.PartsOK in that token\'s value (value_slice, dollar_text). Per input: Spec.textOK (Lean): per kind, the source under a node\'s span is the node\'s spelling (operators/reserved words/pipes modulo line continuations, '
         'whole shell words by an independent quote-state scanner, $name/${..}/~/$(..)/`..`/<(..) forms, redirect = fd + operator + target), evaluated on every '
         'node of every returned tree incl. nested substitutions; contexts in which bashlex is known to misplace spans are part of the violation signature.',
-   note=TB + ' CAUTION: TokText as currently stated was found FALSE of the model on rare inputs (an escaped backslash directly before a real continuation inside double quotes; the word <() followed by <backslash; regexp/dblparen states), so the theorems that take it are vacuous until the corrected relation lands; C04 is decided per input. TokText is a hypothesis (validated, not proved). The word clauses of textOK (whole word, cut short, starts late), adjacency of fd and operator, and the span of a here-document redirect are outside the theorem (Unlinked) and are decided per input.'),
+   note=TB + ' RootEnds is the only hypothesis left in C04_total_conditional (the provenance and leaf-text theorems are unconditional). The word clauses of textOK (whole word, cut short, starts late), adjacency of fd and operator, and the span of a here-document redirect are outside the theorem (Unlinked) and are decided per input.'),
  'C05': dict(level='proof', technique='Lean 4 proof (C05_total_checked: the leaves of every part are exactly the delivered tokens; no hypothesis left, decidable per-input condition rootEndsChecked) + specification predicate evaluated on implementation outcomes; model correspondence',
    text='C05_partial / C05_partial_parts / C05_tokens_in_leaves (Props/C05*.lean, LR/SoundOrdH.lean, 3300 lines): given RootEnds (the token-source hypothesis TokLog is discharged for the real tokenizer: tokLog, Props/C05Total.lean), for every input and all options parse returns one part per parser run, in order, and the leaves of each part (Spec.leaves) are exactly the tokens the run consumed, grouped '
         '([fd] operator target = one redirect leaf, here-document bodies attached as their own leaf or inside the extended redirect): no token is duplicated and the only tokens without a leaf are NEWLINEs in five listed grammar positions, each with a kernel-checked witness; defect D19 is characterised exactly (a d19 group) and excluded by a decidable predicate. '
@@ -80,8 +80,8 @@ CHECKS.update({
         'specification is the intended one. Per input: inputs are built from their parts (1-3 operators, delimiter spellings, bodies, following text, enclosing construct), so operator position, body extent, tab stripping '
         'and the start of the following command are known; the Lean relation checks pairing in operator order, body span/value and the resume point on the implementation outcome.',
    note=TB + ' The theorems cover the reader given the queue; WHEN a redirect is queued relative to the look-ahead (D11: compound contexts) and quote removal of the delimiter (D11-quoted) are decided per input and are the known findings.'),
- 'C11': dict(level='proof', technique='Lean 4 proof (error positions lie inside the source at every tokenizer raise site and in p_error; C11_later; conditional theorems for source and position of top-level errors) + Lean predicate on error triples; history independence theorems (QCongr); model correspondence of (message, source, position)',
-   text='Props/C11*.lean (2660 lines, state-aware Hoare logic + automatic walk of the whole tokenizer): the cursor stays inside the line, every delivered token starts inside the line, every ParsingError built by the tokenizer and by p_error has 0 <= p <= len(src) (the assert in ParsingError.__init__ cannot fire there); the error of a later part is the unchanged error of a run on the suffix (C11_later: finding D15 stated exactly); under the token hypothesis TokLen: range of every escaping error at every depth, source of a top-level error = the input, unexpected EOF => p = len(src), unexpected token => p = lexpos of a delivered token. Per input: Eval.errOK (Lean) checks source = input, 0 <= position <= len, token text at position / EOF at len on every ParsingError of edits placed at top level, in '
+ 'C11': dict(level='proof', technique='Lean 4 proof (C11_parse / C11_first / C11_position, unconditional: every escaping ParsingError has its position inside its source, a top-level error carries the input, unexpected EOF sits at the end, an unexpected token at the lexpos of a delivered token; C11_later) + Lean predicate on error triples; history independence theorems (QCongr); model correspondence of (message, source, position)',
+   text='Props/C11*.lean (2660 lines, state-aware Hoare logic + automatic walk of the whole tokenizer): the cursor stays inside the line, every delivered token starts inside the line, every ParsingError built by the tokenizer and by p_error has 0 <= p <= len(src) (the assert in ParsingError.__init__ cannot fire there); the error of a later part is the unchanged error of a run on the suffix (C11_later: finding D15 stated exactly); and (Props/C11Total.lean, with the token-text theorem tokText supplying what TokLen assumed) unconditionally for parse, parsesingle and runParser: range of every escaping error at every depth (the assert can never fire: no_init_assert), source of a top-level error = the input (the here-document error: the input with the appended newline), unexpected EOF => p = len(src), unexpected token => p = lexpos of a delivered token with that repr. Per input: Eval.errOK (Lean) checks source = input, 0 <= position <= len, token text at position / EOF at len on every ParsingError of edits placed at top level, in '
         'substitutions, nested twice and in later lines; all calls run back to back in one process and the model (history-free, History.results_eq_solo) must agree on the triple.',
    note=TB + ' Known findings D15, D21 (nested / later-part parsers report their substring).'),
  'C13': dict(level='proof', technique='Lean 4 proof (C13_independence: parse(A ++ R) = parse(A) followed by the shifted parts of a fresh parse from the restart index, for every A whose runs are local; Q.run_prefix) + relation evaluated on outcomes',
